@@ -53,6 +53,23 @@ func VH_C01_quorum(h *vrt.H) {
 	}
 	vhMust(k.Relayer.Set(ctx, rel))
 	vhMust(k.Sequence.Set(ctx, seq))
+	// membership changes waiting for the next election: a voter queued for removal is still a
+	// voter (the group, and so the quorum, changes only at the election), a queued newcomer is
+	// not one yet. The queue may also be absent (a keeper that has not seen a request yet).
+	if h.Choose("queuePresent", 0, 1) == 1 {
+		var queue types.VoterQueue
+		nOff := h.Choose("votersQueuedForRemoval", 0, 2)
+		h.Assume(nOff <= n)
+		for i := 0; i < nOff; i++ {
+			queue.OffBoarding = append(queue.OffBoarding, vhMembers[1+i])
+			vhMust(k.Voters.Set(ctx, vhMembers[1+i], types.Voter{VoteKey: h.BLSKey(1 + i), Status: types.VOTER_STATUS_OFF_BOARDING}))
+		}
+		if h.Choose("newcomerQueued", 0, 1) == 1 {
+			queue.OnBoarding = append(queue.OnBoarding, vhMembers[n+1])
+			vhMust(k.Voters.Set(ctx, vhMembers[n+1], types.Voter{VoteKey: h.BLSKey(n + 1), Status: types.VOTER_STATUS_ON_BOARDING}))
+		}
+		vhMust(k.Queue.Set(ctx, queue))
+	}
 
 	// who really signed, and what
 	signed := make([]bool, n+1)
